@@ -306,6 +306,27 @@ static int bad_KWPUnwrap(fc_ctx* c, int j, err_t* exp)
 	case 2: /* other key */
 		((octet*)c->a[2])[sk_below(&c->rng, (uint32_t)c->n[2])] ^= 1;
 		return 1;
+	case 3:
+	{
+		/* a token made under a header that is zero but for one bit, presented without a header
+		   (i.e. "the header is zero"): every one of the 128 header bits counts */
+		octet h[16];
+		void* st;
+		size_t m = c->n[1] - 16;
+		if (!c->plain || c->plain_len != m || (c->n[2] != 16 && c->n[2] != 24 && c->n[2] != 32))
+			return 0;   /* composed with a variant that already replaced the token or the key length */
+		memset(h, 0, 16);
+		h[sk_below(&c->rng, 16)] = (octet)(1u << sk_below(&c->rng, 8));
+		memcpy(c->a[1], c->plain, m);
+		memcpy((octet*)c->a[1] + m, h, 16);
+		st = sk_alloc(beltKWP_keep());
+		beltKWPStart(st, c->a[2], c->n[2]);
+		beltKWPStepE(c->a[1], m + 16, st);
+		sk_free(st);
+		c->a[3] = 0;
+		exp[0] = ERR_BAD_KEYTOKEN;
+		return 1;
+	}
 	}
 	return 0;
 }
